@@ -11,6 +11,7 @@ import (
 	"runtime"
 	"strings"
 	"sync"
+	"sync/atomic"
 	"time"
 
 	frugal "github.com/Workiva/frugal/lib/go"
@@ -110,14 +111,18 @@ func (a *adapterClient) newSession() (*session, error) {
 // monRec is an FTransportMonitor that only records how the transport closed
 // (the monitor has its own channel: it tells the monitor of a close without
 // touching what Closed() delivers to the application).
-type monRec struct{ ev chan monEv }
+type monRec struct {
+	ev   chan monEv
+	told atomic.Int32 // closes the monitor has been told of (never consumed)
+}
 type monEv struct {
 	clean bool
 	cause error
 }
 
-func (m *monRec) OnClosedCleanly() { m.ev <- monEv{true, nil} }
+func (m *monRec) OnClosedCleanly() { m.told.Add(1); m.ev <- monEv{true, nil} }
 func (m *monRec) OnClosedUncleanly(cause error) (bool, time.Duration) {
+	m.told.Add(1)
 	m.ev <- monEv{false, cause}
 	return false, 0
 }
@@ -295,6 +300,11 @@ func (a *adapterClient) deliver(idx int, in input) outcome {
 			o.note = "the request never got as far as waiting for its response: " + o.note
 		}
 		return o
+	}
+	if in.Class == repeatClass {
+		// slow requester: it keeps its registration until the read loop has been
+		// through the whole stream (the monitor has been told of the close)
+		hold.arm(opid, func() bool { return mon.told.Load() > 0 })
 	}
 	s1.st.Feed(in.Data)
 	s1.st.Feed(valid)
@@ -493,6 +503,9 @@ func (n *natsClient) call(base int, opid uint64, msgs []*nats.Msg) (callResult, 
 func (n *natsClient) deliver(idx int, in input) outcome {
 	opid := opidFor(idx)
 	valid := validFrame(roleResp, n.proto, bases(roleResp)[in.Base], opid)
+	if in.Class == repeatClass {
+		return n.deliverRepeat(idx, in, opid, valid)
+	}
 	h := &nats.Msg{Data: in.Data}
 	switch n.mode(idx) {
 	case "status503":
@@ -514,6 +527,32 @@ func (n *natsClient) deliver(idx int, in input) outcome {
 	}
 	if !r.ok {
 		return outcome{"wrong", fmt.Sprintf("clean call after the input on the same NATS transport: ok=%v err=%v", r.ok, r.err)}
+	}
+	return okOutcome("same-subscription-next-call")
+}
+
+// deliverRepeat: the copies arrive as separate messages on the inbox of the
+// request in flight, back to back, while the (slow) requester is still
+// registered; then the fence.  Afterwards a clean call on the same transport.
+func (n *natsClient) deliverRepeat(idx int, in input, opid uint64, valid []byte) outcome {
+	var msgs []*nats.Msg
+	for _, f := range splitFrames(in.Data) {
+		msgs = append(msgs, &nats.Msg{Data: f})
+	}
+	hold.arm(opid, func() bool { return hold.fence.Load() })
+	r, o := n.call(in.Base, opid, append(msgs, &nats.Msg{Data: valid}))
+	if o.kind != "ok" {
+		return o
+	}
+	if !r.ok {
+		return outcome{"wrong", fmt.Sprintf("[repeat-wrong-answer] call answered with %d copies of its well-formed response: ok=%v err=%v", len(msgs)+1, r.ok, r.err)}
+	}
+	r, o = n.call(0, opid+500000, []*nats.Msg{{Data: validFrame(roleResp, n.proto, bases(roleResp)[0], opid+500000)}})
+	if o.kind != "ok" {
+		return o
+	}
+	if !r.ok {
+		return outcome{"wrong", fmt.Sprintf("clean call after the repeated responses on the same NATS transport: ok=%v err=%v", r.ok, r.err)}
 	}
 	return okOutcome("same-subscription-next-call")
 }
